@@ -439,6 +439,198 @@ def check_reference(ctx, R="C10.reference"):
     ctx.floor(R, n, 40, "reference headings")
 
 
+def check_frontend_partial(ctx, R="C10.partial"):
+    ctx.rule(
+        R,
+        "partial operations of the front end are protected: (a) the tokenizer's get_lines, which raises KeyError for a line without "
+        "tokens, is called under a KeyError handler; (b) ast.literal_eval of token text, which raises SyntaxError / ValueError for literals "
+        "the tokenizer lets through (`01`, `1__0`), is called only under a handler for both that reports a syntax error; (c) literal values "
+        "are concatenated only after a bytes-vs-str test that raises a syntax error; (d) every Scenic node class that only the "
+        "PropositionTransformer compiles is rejected with a syntax error by the main transformer's generic_visit (it can be nested inside an "
+        "ordinary expression); (e) a parenthesised temporal expression may be followed by every binary connective of the temporal grammar",
+    )
+    g = ctx.grammar
+    sh = g.subheader_tree()
+
+    def protected(node, kinds):
+        cur = node
+        while getattr(cur, "_parent", None) is not None:
+            par = cur._parent
+            if isinstance(par, ast.Try) and any(x is cur for x in par.body):
+                for h in par.handlers:
+                    ht = unparse(h.type) if h.type is not None else "BaseException"
+                    if all(any(k in ht for k in alts) for alts in kinds):
+                        return h
+            cur = par
+        return None
+
+    # (a)
+    gl = [c for c in ast.walk(sh) if isinstance(c, ast.Call) and isinstance(c.func, ast.Attribute) and c.func.attr == "get_lines"]
+    ctx.floor(R, len(gl), 1, "get_lines calls in the parser helpers")
+    for c in gl:
+        if protected(c, [("KeyError", "LookupError", "Exception", "BaseException")]):
+            ctx.ok(R, GRAMFILE, f"get_lines is called under a KeyError handler", qualname="subheader")
+        else:
+            ctx.finding(R, GRAMFILE, "subheader: unprotected get_lines", f"parser helper calls `{norm_text(c, 60)}` without a KeyError handler: a syntax error whose range covers a line without tokens (a blank line inside brackets) escapes as KeyError", qualname="subheader")
+    # (b)
+    sites = [(None, c) for c in ast.walk(sh) if isinstance(c, ast.Call) and dotted(c.func) == "ast.literal_eval"]
+    for a in g.alts:
+        if a.action is not None:
+            for c in ast.walk(a.action):
+                if isinstance(c, ast.Call) and dotted(c.func) == "ast.literal_eval":
+                    sites.append((a, c))
+    ctx.floor(R, len(sites), 1, "ast.literal_eval sites in the grammar")
+    for a, c in sites:
+        h = protected(c, [("SyntaxError", "Exception", "BaseException"), ("ValueError", "Exception", "BaseException")]) if a is None else None
+        if h is not None and any(isinstance(x, ast.Call) and isinstance(x.func, ast.Attribute) and x.func.attr.startswith("raise_syntax_error") for x in ast.walk(h)):
+            ctx.ok(R, GRAMFILE, "ast.literal_eval of token text reports invalid literals as syntax errors", qualname="subheader")
+        else:
+            where = f"rule {a.rule}" if a is not None else "a parser helper"
+            ctx.finding(R, GRAMFILE, f"unprotected literal_eval in {where}", f"{where} evaluates `{norm_text(c, 50)}` without converting SyntaxError / ValueError: a literal the tokenizer accepts but Python rejects (`01`, `1__0`) escapes as a raw Python error instead of a located Scenic syntax error", qualname=a.rule if a is not None else "subheader")
+    # (c)
+    for fn in [f for f in ast.walk(sh) if isinstance(f, ast.FunctionDef)]:
+        augs = [n for n in ast.walk(fn) if isinstance(n, ast.AugAssign) and isinstance(n.op, ast.Add) and isinstance(n.value, (ast.Name, ast.Call))]
+        lit = [n for n in augs if any(isinstance(c, ast.Call) and (dotted(c.func) == "ast.literal_eval" or (isinstance(c.func, ast.Attribute) and c.func.attr == "literal_value")) for c in ast.walk(fn))]
+        if not lit or fn.name == "literal_value":
+            continue
+        tests = [i for i in ast.walk(fn) if isinstance(i, ast.If) and "bytes" in unparse(i.test) and any(isinstance(x, ast.Call) and isinstance(x.func, ast.Attribute) and x.func.attr.startswith("raise_syntax_error") for x in ast.walk(i))]
+        if tests and min(t.lineno for t in tests) <= min(n.lineno for n in lit):
+            ctx.ok(R, GRAMFILE, f"{fn.name}: literal values are concatenated only after the bytes / str test", qualname=f"subheader.{fn.name}")
+        else:
+            ctx.finding(R, GRAMFILE, f"subheader.{fn.name}: literal values concatenated without a bytes / str test", f"parser helper `{fn.name}` adds up the values of adjacent literals (`{norm_text(lit[0], 40)}`) without first rejecting a mix of bytes and str: `b\"a\" \"b\"` escapes as TypeError instead of CPython's syntax error", qualname=f"subheader.{fn.name}")
+    # (d)
+    model = ctx.model
+    comp = model.module(CO)
+    pt = model.cls(CO, "PropositionTransformer")
+    mt = model.cls(CO, "ScenicToPythonTransformer")
+    only_pt = sorted(m[len("visit_"):] for m in pt.methods if m.startswith("visit_") and m not in mt.methods and m[len("visit_"):] in _scenic_node_classes(model))
+    ctx.floor(R, len(only_pt), 3, "node classes compiled only by the PropositionTransformer")
+    gv = mt.methods.get("generic_visit")
+    if gv is None:
+        raise AnalysisError("ScenicToPythonTransformer.generic_visit missing")
+    rejected = set()
+    for c in ast.walk(gv):
+        if isinstance(c, ast.Call) and isinstance(c.func, ast.Attribute) and c.func.attr == "makeSyntaxError":
+            for coll in ast.walk(gv):
+                if isinstance(coll, (ast.Dict, ast.Set, ast.Tuple, ast.List)):
+                    elems = coll.keys if isinstance(coll, ast.Dict) else coll.elts
+                    for e in elems:
+                        if isinstance(e, ast.Attribute) and isinstance(e.value, ast.Name) and e.value.id == "s":
+                            rejected.add(e.attr)
+    miss = [n for n in only_pt if n not in rejected]
+    if miss:
+        ctx.finding(R, gv, f"temporal nodes {miss} reach an assertion", f"the node classes {miss} are compiled only by the PropositionTransformer; nested inside an ordinary expression (`require x if y else (always z)`) they reach ScenicToPythonTransformer.generic_visit, which does not report them as syntax errors: the compiler fails with AssertionError")
+    else:
+        ctx.ok(R, gv, f"{only_pt} outside a proposition are reported as syntax errors")
+    # (e)
+    grp = g.rules.get("scenic_temporal_group")
+    if grp is None:
+        raise AnalysisError("grammar rule scenic_temporal_group missing")
+    from pegen import grammar as gr
+
+    look = set()
+    for it in grp.rhs.alts[0].items:
+        node = it.item if isinstance(it, gr.NamedItem) else it
+        if isinstance(node, gr.PositiveLookahead):
+            inner = node.node
+            rhs = inner.rhs if isinstance(inner, gr.Group) else inner
+            for a_ in getattr(rhs, "alts", []):
+                for x in a_.items:
+                    xn = x.item if isinstance(x, gr.NamedItem) else x
+                    if isinstance(xn, gr.StringLeaf):
+                        look.add(xn.value[1:-1])
+    infix = set()
+    for rname in ("scenic_until", "scenic_implication", "scenic_temporal_disjunction", "scenic_temporal_conjunction"):
+        rule = g.rules.get(rname)
+        if rule is None:
+            raise AnalysisError(f"grammar rule {rname} missing")
+        for a in [x for x in g.alts if x.rule == rname]:
+            for tok, _q, _opt in a.strings():
+                if tok.isalpha():
+                    infix.add(tok)
+    missing = sorted(infix - look)
+    if missing:
+        ctx.finding(R, GRAMFILE, f"scenic_temporal_group lookahead lacks {missing}", f"a parenthesised temporal expression is recognised only when followed by one of {sorted(look)}; the connectives {missing} of the temporal grammar are missing, so e.g. `require (always A) implies B` (an example of the reference) is a syntax error", qualname="scenic_temporal_group")
+    else:
+        ctx.ok(R, GRAMFILE, f"a parenthesised temporal expression may be followed by every connective {sorted(infix)}", qualname="scenic_temporal_group")
+
+
+def _scenic_node_classes(model):
+    m = model.module("scenic.syntax.ast")
+    return {c.split(".")[-1] for c in m.classes}
+
+
+def check_shadowing(ctx, R="C10.shadow"):
+    ctx.rule(
+        R,
+        "no alternative is shadowed in an ordered choice: PEG tries alternatives in order and does not come back to a rule once one of its "
+        "alternatives succeeded, so an earlier alternative that consists of just the keywords K1..Kn (nothing mandatory after them) makes "
+        "every later alternative of the same rule that starts with K1..Kn Kn+1 unreachable -- the longer documented form (`terminate "
+        "simulation` after `terminate`) is then rejected with 'invalid syntax'",
+    )
+    from pegen import grammar as gr
+
+    g = ctx.grammar
+    nullable = g.nullable_rules()
+
+    def literal_prefix(alt, depth=0):
+        """(tuple of leading literal tokens, True if nothing mandatory follows them)"""
+        toks = []
+        items = list(alt.items)
+        i = 0
+        while i < len(items):
+            it = items[i]
+            node = it.item if isinstance(it, gr.NamedItem) else it
+            if isinstance(node, gr.StringLeaf):
+                toks.append(node.value[1:-1])
+                i += 1
+                continue
+            if isinstance(node, gr.NameLeaf) and node.value in g.rules and depth < 3 and not toks:
+                sub = g.rules[node.value].rhs.alts
+                if len(sub) == 1:
+                    st, srest = literal_prefix(sub[0], depth + 1)
+                    toks.extend(st)
+                    if srest:
+                        i += 1
+                        continue
+                    return tuple(toks), False
+            break
+        rest_nullable = True
+        for it in items[i:]:
+            node = it.item if isinstance(it, gr.NamedItem) else it
+            if isinstance(node, (gr.Opt, gr.Repeat0, gr.PositiveLookahead, gr.NegativeLookahead)):
+                continue
+            if isinstance(node, gr.NameLeaf) and node.value in nullable:
+                continue
+            rest_nullable = False
+            break
+        return tuple(toks), rest_nullable
+
+    n = 0
+    for rname, rule in g.rules.items():
+        alts = rule.rhs.alts
+        if len(alts) < 2:
+            continue
+        forms = [literal_prefix(a) for a in alts]
+        for i, (ti, complete_i) in enumerate(forms):
+            if not ti or not complete_i:
+                continue
+            for j in range(i + 1, len(alts)):
+                tj, _ = forms[j]
+                n += 1
+                if len(tj) > len(ti) and tj[: len(ti)] == ti:
+                    ctx.finding(
+                        R,
+                        GRAMFILE,
+                        f"{rname}: alternative {' '.join(ti)} shadows {' '.join(tj)}",
+                        f"grammar rule {rname} (line ~{g.line_of_rule(rname)}): alternative {i + 1} `{alts[i]}` accepts the bare keywords `{' '.join(ti)}`, and comes before alternative {j + 1} `{alts[j]}`, which "
+                        f"starts with `{' '.join(tj)}`: the parser commits to the shorter form and the longer documented statement is a syntax error",
+                        qualname=rname,
+                    )
+    ctx.floor(R, n, 20, "ordered pairs of alternatives after a keyword-only alternative")
+    ctx.ok(R, GRAMFILE, f"{n} ordered pairs checked", qualname="grammar")
+
+
 # Frozen: unguarded `[-1]` / `[0]` on a possibly-empty component that the grammar context makes non-empty.
 INDEX_OK = {
     ("invalid_arguments", "args ',' args", "a[1]"): "the first `args` can only be followed by `,` `args` when a keyword argument stopped its positional part, so its keyword list is not empty",
@@ -555,7 +747,23 @@ def check_indexing(ctx, R="C10.index"):
                 ctx.ok(R, node, f"errors.{q}: `{unparse(node)}` cannot raise out of the error report")
             else:
                 ctx.finding(R, node, f"errors.{q}: unguarded {norm_text(node, 50)}", f"scenic.core.errors.{q}: `{unparse(node)}` indexes by a value taken from the error being reported without a length check or an IndexError handler: an error located at the end of a file makes the report itself fail with IndexError")
-    ctx.note(f"errors.py: {nb} parameter-indexed subscripts")
+    # next(it) without a default raises StopIteration when the error sits past the end of the file
+    for q, fn in m.functions.items():
+        for c in walk_local(fn):
+            if isinstance(c, ast.Call) and dotted(c.func) == "next" and len(c.args) == 1 and not c.keywords:
+                nb += 1
+                caught = False
+                for anc in ancestors(c):
+                    if isinstance(anc, ast.Try) and any(x is c for b in anc.body for x in ast.walk(b)):
+                        for h in anc.handlers:
+                            ht = unparse(h.type) if h.type is not None else "BaseException"
+                            if any(k in ht for k in ("StopIteration", "Exception", "BaseException")):
+                                caught = True
+                if caught:
+                    ctx.ok(R, c, f"errors.{q}: `{unparse(c)}` is protected against an exhausted iterator")
+                else:
+                    ctx.finding(R, c, f"errors.{q}: unguarded {norm_text(c, 50)}", f"scenic.core.errors.{q}: `{unparse(c)}` has no default and no StopIteration handler: when the error is reported one line past the end of a file the report itself fails with StopIteration")
+    ctx.note(f"errors.py: {nb} parameter-indexed subscripts / bare next() calls")
 
 
 def _nonempty(e, plus_items):
@@ -609,6 +817,8 @@ def _guarded_in_action(action, node, comp, others=()):
 
 
 def check(ctx):
+    check_frontend_partial(ctx)
+    check_shadowing(ctx)
     check_indexing(ctx)
     check_visitors(ctx)
     check_raises(ctx)
